@@ -568,6 +568,15 @@ func (e *Env) contractForm(name string, n *ast.CallExpr) (Value, bool) {
 		return mergeVal(c, a, b), true
 	case "forall", "exists":
 		return e.quantifier(name, n), true
+	case "floordiv":
+		// floordiv(a, b): floor of a/b for b > 0 (SMT-LIB integer division)
+		a := e.toIntTerm(e.derefBig(e.expr(n.Args[0])))
+		b := e.toIntTerm(e.derefBig(e.expr(n.Args[1])))
+		q := EDiv(a, b)
+		if e.knownPositive(b) && e.knownNonNeg(a, 0) {
+			e.divFacts(q, a, b)
+		}
+		return Scalar{q, mathIntType}, true
 	case "sum":
 		// sum(k, lo, hi, body): finite sum over a constant range (expanded)
 		if len(n.Args) != 4 {
@@ -756,7 +765,7 @@ func (e *Env) quantifier(kind string, n *ast.CallExpr) Value {
 	if !okH {
 		h, okH = e.x.simplifyWithPC(e.st, hi).Int64()
 	}
-	if okL && okH && h-l <= 128 {
+	if okL && okH && h-l <= 256 {
 		var cs []*Term
 		for i := l; i < h; i++ {
 			sub := e.sub(map[string]Value{id.Name: Scalar{IntC(i), intT}})
